@@ -23,5 +23,6 @@ Init == i = 1 /\ bad = {}
 Next == /\ i <= Len(Trace) /\ i' = i + 1
         /\ bad' = IF LineOK(Trace[i]) THEN bad ELSE bad \cup {<<Trace[i].n, Trace[i].t>>}
 Spec == Init /\ [][Next]_<<i, bad>>
-Done == (i = Len(Trace) + 1) => PrintT(<<"VERDICT", Len(Trace), ToString(bad)>>)
+Some(S) == IF S = {} THEN <<0, 0>> ELSE CHOOSE x \in S : \A y \in S : x[1] < y[1] \/ (x[1] = y[1] /\ x[2] <= y[2])
+Done == (i = Len(Trace) + 1) => PrintT(<<"VERDICT", Len(Trace), Cardinality(bad), Some(bad)>>)
 =============================================================================
